@@ -32,7 +32,7 @@ open JsightVerif.Model JsightVerif.Model.Build JsightVerif.Gen
 theorem C02_interactions_exact (roots : List DT) (rootFile : Bytes) (banned : List Kind)
     (content : Bytes → Bytes) (b : Built) (h : build roots rootFile banned content = .ok b) :
     ids b.cat = idsOfList b.expanded [] := by
-  obtain ⟨_, _, _, _, tags, enums, s, _, _, _, hadd, hc⟩ := build_stages roots rootFile banned content b h
+  obtain ⟨_, _, _, _, tags, enums, s, _, _, _, _, hadd, hc⟩ := build_stages roots rootFile banned content b h
   rw [hc, addList_ids content b.expanded [] b.expanded [] _ s hadd]
   simp
 
@@ -43,7 +43,7 @@ theorem C02_servers_types_exact (roots : List DT) (rootFile : Bytes) (banned : L
     (content : Bytes → Bytes) (b : Built) (h : build roots rootFile banned content = .ok b) :
     serverNames b.cat = collectList (fun d _ => newServers d) b.expanded [] ∧
     typeNames b.cat = collectList (fun d _ => newTypes d) b.expanded [] := by
-  obtain ⟨_, _, _, _, tags, enums, s, _, _, _, hadd, hc⟩ := build_stages roots rootFile banned content b h
+  obtain ⟨_, _, _, _, tags, enums, s, _, _, _, _, hadd, hc⟩ := build_stages roots rootFile banned content b h
   rw [hc]
   exact ⟨by simpa [serverNames] using (addList_servers content b.expanded _ s hadd).1,
          by simpa [typeNames] using (addList_types content b.expanded _ s hadd).1⟩
